@@ -431,7 +431,8 @@ def fam_through_record(rng):
     subT = [gen_pure(rng, rng.randint(d, 2), optlist=0.15) for _ in keys]
     if any(t[0] == "option" for t in subT):
         subT = [t[1] if t[0] == "option" else t for t in subT]
-    T = ("record", keys, subT)
+    istuple = rng.random() < 0.25
+    T = ("record", None if istuple else keys, subT)
     vals = [L.gen_value(rng, T) for _ in range(L.toplen(rng, 0, 4))]
     lay = L.Enc(rng).encode(vals, T)
     axis = rng.randint(1, d)
@@ -467,11 +468,11 @@ def fam_through_record(rng):
         return R.rpad(fv, target, axis, clip)
     try:
         per = {}
-        for kk, fT in zip(keys, subT):
-            per[kk] = one([v[kk] for v in vals])
+        for jj, (kk, fT) in enumerate(zip(keys, subT)):
+            per[kk] = one([(v[jj] if istuple else v[kk]) for v in vals])
     except R.Refuse:
         return None
-    ref = [{kk: per[kk][i] for kk in keys} for i in range(len(vals))]
+    ref = [(tuple(per[kk][i] for kk in keys) if istuple else {kk: per[kk][i] for kk in keys}) for i in range(len(vals))]
     line = {"num": "num %d" % axis, "localindex": "localindex %d" % axis,
             "combinations": "combinations %d %d %d" % (n, repl, axis), "rpad": "rpad %d %d %d" % (target, axis, clip),
             "sort": "sort %d %d %d" % (axis, asc, stable), "reduce": "reduce %s %d %d 0" % (red, axis, mask)}[op]
